@@ -119,10 +119,24 @@ func c03(c *core.Ctx) {
 		if encFn == nil || decFn == nil {
 			continue
 		}
-		encRecv := encFn.Params[0]
 		decRecv := decFn.Params[0]
-		// deref sites in Encode: WriteStruct(recv.F) with F pointer/interface whose encoder dereferences nil
-		for _, call := range ssax.CallsTo(encFn, writeStruct) {
+		// deref sites in Encode (or a private helper method of the same receiver): WriteStruct(recv.F) with F
+		// pointer/interface whose encoder dereferences nil
+		type encSite struct {
+			call ssa.CallInstruction
+			recv *ssa.Parameter
+		}
+		var encSites []encSite
+		for _, g := range withHelpers(encFn) {
+			if g.Signature.Recv() == nil || len(g.Params) == 0 || !types.Identical(g.Params[0].Type(), encFn.Params[0].Type()) {
+				continue
+			}
+			for _, call := range ssax.CallsTo(g, writeStruct) {
+				encSites = append(encSites, encSite{call, g.Params[0]})
+			}
+		}
+		for _, es := range encSites {
+			call, encRecv := es.call, es.recv
 			arg := call.Common().Args[1]
 			var inner ssa.Value = arg
 			if mi, ok := arg.(*ssa.MakeInterface); ok {
@@ -215,20 +229,23 @@ func c03(c *core.Ctx) {
 		dimsLen := field(c, "ua", "Variant", "arrayDimensionsLength")
 		if vd != nil && dimsF != nil && dimsLen != nil {
 			ok := false
-			for _, a := range ssax.FieldAccesses(vd, dimsF) {
-				st, isSt := a.Use.(*ssa.Store)
-				if !isSt || a.Kind != ssax.Write {
-					continue
-				}
-				if mk, isMk := ssax.Strip(st.Val).(*ssa.MakeSlice); isMk && loadedField(mk.Len).f == dimsLen {
-					ok = true
-				}
-			}
-			// no store to arrayDimensionsLength after the allocation other than the read itself
 			nStores := 0
-			for _, a := range ssax.FieldAccesses(vd, dimsLen) {
-				if a.Kind == ssax.Write {
-					nStores++
+			// (in Decode or a private helper method of it)
+			for _, g := range withHelpers(vd) {
+				for _, a := range ssax.FieldAccesses(g, dimsF) {
+					st, isSt := a.Use.(*ssa.Store)
+					if !isSt || a.Kind != ssax.Write {
+						continue
+					}
+					if mk, isMk := ssax.Strip(st.Val).(*ssa.MakeSlice); isMk && loadedField(mk.Len).f == dimsLen {
+						ok = true
+					}
+				}
+				// no store to arrayDimensionsLength after the allocation other than the read itself
+				for _, a := range ssax.FieldAccesses(g, dimsLen) {
+					if a.Kind == ssax.Write {
+						nStores++
+					}
 				}
 			}
 			c.Ob("C03.shape", "ua.Variant·len(arrayDimensions) == arrayDimensionsLength", c.P.Pos(vd.Pos()), ok && nStores == 1, "allocated with make([]int32, arrayDimensionsLength): "+boolStr(ok)+"; arrayDimensionsLength assigned once: "+boolStr(nStores == 1))
